@@ -234,12 +234,16 @@ func (dc *DiffCursor) NextEntry(ctx context.Context) (Diff, error) {
 	}
 	for {
 		dc.resetCurrent()
+		oldThings, newThings := dc.oldStack.things, dc.newStack.things
 		err := dc.m.diffOne(ctx, dc.diffState)
 		if err == ErrNoMoreDiffs {
 			dc.done = true
 			return Diff{}, ErrNoMoreDiffs
 		}
 		if err != nil {
+			// A failed step has popped its items but pushed nothing yet; put them
+			// back, so that a retried NextEntry resumes here instead of skipping them.
+			dc.oldStack.things, dc.newStack.things = oldThings, newThings
 			return Diff{}, err
 		}
 		if dc.curKey == nil {
